@@ -54,6 +54,7 @@ type MapObj struct {
 	val  *Term   // (Array String String)
 	keys []*Term // iteration shape (pairwise distinct keys that are present), nil = opaque
 	opaq bool    // true: key set not enumerable
+	src  *Term   // canonical JSON encoding this map was decoded from (nil after mutation)
 	// generic concrete-keyed maps
 	ks []Value
 	vs []Value
